@@ -56,6 +56,11 @@ EvalV(ve, env, w) ==
     [] ve.k = "obs" -> LET x == Get(w, env, ve.n) IN [v |-> x, w |-> Log(w, <<"v", ve.id, x>>)]
     \* closures of eta shape declared in the function's prolog; the callee / receiver is read when the CALL is evaluated
     [] ve.k = "gets" -> [v |-> Get(w, env, "sv"), w |-> w]              \* get() with get := func() int { return s.Get() }
+    \* pwrap(n) with pwrap := func(x int) int { return pscale(x) } and pscale a package-level function VARIABLE
+    \* (initially x + 1000, after `setp` x * 100): read when the call is evaluated
+    [] ve.k = "pv"   -> [v |-> IF Get(w, env, "pv") = 0 THEN Get(w, env, ve.n) + 1000 ELSE Get(w, env, ve.n) * 100, w |-> w]
+    \* a fresh object per evaluation: &box{v: e}; the consumer reads its field and then mutates the object
+    [] ve.k = "fresh" -> EvalV(ve.e, env, w)
     [] ve.k = "pk"   -> [v |-> Get(w, env, ve.n) + 1, w |-> w]           \* inc1(n) with inc1 := func(x int) int { return pkgInc(x) }
     [] ve.k = "idg"  -> [v |-> Get(w, env, ve.n), w |-> w]               \* idg(n) with idg := func(x int) int { return ident[int](x) }
     [] ve.k = "ln"   -> [v |-> 3, w |-> w]                               \* ln("abc") with ln := func(x string) int { return len(x) }
@@ -79,15 +84,15 @@ Heap0 == [s |-> [cells |-> <<10, 20, 30, 0>>, len |-> 3], arr |-> <<10, 20, 30>>
 Spawn(w, g, a, b) ==
   LET c1 == Alloc(w, a) c2 == Alloc(c1.w, b)
       c3 == Alloc(c2.w, 0 - 1) c4 == Alloc(c3.w, 0 - 1) c5 == Alloc(c4.w, 0 - 7)
-      c6 == Alloc(c5.w, 7) c7 == Alloc(c6.w, 0)
+      c6 == Alloc(c5.w, 7) c7 == Alloc(c6.w, 0) c8 == Alloc(c7.w, 0)
       \* kk, vv: function-level variables assigned by `=` range loops; k, v denote the key / value
       \* variable of the innermost range loop (a cell holding -7 when there is none)
       \* sv: the field v of the struct the pointer variable s points to (s := &box{v: 7}; `sets`: s = &box{v: 50})
       \* cv: which function the function variable cv holds (0: func() bool { return r.T(id) }, 1: func() bool { return false })
       env == [a |-> c1.id, b |-> c2.id, kk |-> c3.id, vv |-> c4.id, k |-> c5.id, v |-> c5.id, none |-> c5.id,
-              sv |-> c6.id, cv |-> c7.id] IN
+              sv |-> c6.id, cv |-> c7.id, pv |-> c8.id] IN   \* pv: which function the PACKAGE-LEVEL function variable holds
   [id |-> Len(w.cos) + 1,
-   w  |-> [c7.w EXCEPT !.cos = Append(@, [k |-> <<[t |-> "seq", ss |-> w.table[g], env |-> env]>>,
+   w  |-> [c8.w EXCEPT !.cos = Append(@, [k |-> <<[t |-> "seq", ss |-> w.table[g], env |-> env]>>,
                                           cur |-> Zero, done |-> FALSE, penv |-> env, heap |-> Heap0, defers |-> <<>>])]]
 
 \* ---------------------------------------------------------------- control stack helpers
@@ -165,6 +170,7 @@ RunDefers(ds, w) == IF ds = <<>> \/ Panicked(w) THEN w ELSE RunDefers(Tail(ds), 
 \*   lcont     L: for r.T(id) { for r.T(id+1) { Yield(a); continue L }; r.E(id+2, a, b) }
 \*   goto      if r.T(id) { goto L }; Yield(a); L: r.E(id+1, a, b)
 \*   select    select { case v := <-rt.Ch(7): Yield(v) }
+\*   selbrk    select { case v := <-rt.Ch(7): if r.T(id) { break }; r.E(id+1, v, 0) }   (no yield; the break leaves the select)
 \*   defer     defer r.E(id, a, b)
 \*   fallyield switch r.T(id) { case true: Yield(a); fallthrough; default: Yield(b) }
 \*   ifinit    if Yield(a); r.T(id) { r.E(id+1, a, b) }
@@ -173,6 +179,10 @@ RunDefers(ds, w) == IF ds = <<>> \/ Panicked(w) THEN w ELSE RunDefers(Tail(ds), 
 \*   rtparam   for _, v := range ts { Yield(v) }   with ts of a type-parameter type ~[]int holding 10, 20, 30
 \* Negative controls, inside a closure nested in the generator (no yield inside; must be accepted):
 \*   clo-lbreak clo-goto clo-select clo-defer clo-rfunc clo-rparr clo-fall
+\* and a SUPPORTED shape used by C13 (a three-clause loop inside a nested closure whose variable is captured by
+\* closures outliving the iteration: per-iteration variables of go >= 1.22 must be preserved there):
+\*   clo-loopvar  func() { var fs []func() int; for i := 0; i < 3; i++ { fs = append(fs, func() int { return i }) };
+\*                         for _, f := range fs { r.E(id, f(), 0) } }()
 UY(v) == [k |-> "yield", v |-> v]
 UVar(n) == [k |-> "var", n |-> n]
 ULit(n) == [k |-> "lit", v |-> n]
@@ -189,6 +199,7 @@ Desugar(s) ==
     [] s.u = "lcont"  -> <<UFor("L", id, <<UFor("", id + 1, <<UY(UVar("a")), [k |-> "lcont", lab |-> "L"]>>), UEff(id + 2)>>)>>
     [] s.u = "goto"   -> <<UIf(id, <<>>, <<UY(UVar("a"))>>), UEff(id + 1)>>
     [] s.u = "select" -> <<UY(ULit(7))>>
+    [] s.u = "selbrk" -> <<UIf(id, <<>>, <<UEffX(id + 1, ULit(7))>>)>>
     [] s.u = "defer"  -> <<[k |-> "defer", id |-> id]>>
     [] s.u = "fallyield" -> <<[k |-> "switch", init |-> None, form |-> "tag", c |-> UT(id),
                                cases |-> <<UCase("t", <<UY(UVar("a"))>>, TRUE), UCase("d", <<UY(UVar("b"))>>, FALSE)>>]>>
@@ -202,6 +213,7 @@ Desugar(s) ==
     [] s.u = "clo-defer"  -> <<UEff(id + 1), UEff(id)>>
     [] s.u = "clo-rfunc"  -> <<UEffX(id, ULit(1)), UEffX(id, ULit(2)), UEffX(id, ULit(3))>>
     [] s.u = "clo-rparr"  -> <<URange("parray", id, <<[k |-> "effkv", id |-> id]>>)>>
+    [] s.u = "clo-loopvar" -> <<UEffX(id, ULit(0)), UEffX(id, ULit(1)), UEffX(id, ULit(2))>>
     [] s.u = "clo-fall"   -> <<[k |-> "switch", init |-> None, form |-> "tag", c |-> UT(id),
                                 cases |-> <<UCase("t", <<UEff(id + 1)>>, TRUE), UCase("d", <<UEff(id + 2)>>, FALSE)>>]>>
 UnsupYields(u) == u \in {"lbreak", "lcont", "goto", "select", "fallyield", "ifinit", "rparr", "rfunc", "rtparam"}
@@ -280,6 +292,7 @@ Run(i, w) ==
                           IF Panicked(e.w) THEN [st |-> "panic", w |-> e.w]
                           ELSE Run(i, SetK(Log(e.w, <<"e", s.id, e.v, 0>>), i, k1))
       [] s.k = "setcv" -> Run(i, SetK(Set(w, c.penv, "cv", 1), i, k1))   \* cv = func() bool { return false }
+      [] s.k = "setp"  -> Run(i, SetK(Set(w, c.penv, "pv", 1), i, k1))   \* pscale = func(x int) int { return x * 100 }
       [] s.k = "sets"  -> Run(i, SetK(Set(w, c.penv, "sv", 50), i, k1))  \* s = &box{v: 50}
       [] s.k = "callf" -> Run(i, SetK(Set(w, c.penv, "a", Get(w, c.penv, "a") + 100), i, k1))
       [] s.k = "passign" -> LET x == Get(w, env, "a") a == Log(w, <<"p", s.id, x>>) IN
